@@ -135,6 +135,8 @@ impl<T> Ring<T> {
     }
     // SAFETY: the slot is free (fullness check above) and unpublished (the
     // consumer never reads at or past `tail`), and only this producer writes.
+    #[cfg(all(loom, excsn_fibre_verif))]
+    crate::internal::verif_shadow::write(self.buf[tail & self.mask].get() as usize); // verification seam H10
     unsafe { (*self.buf[tail & self.mask].get()).write(item) };
     self.p.tail.store(tail.wrapping_add(1), Ordering::Release);
     Ok(())
@@ -158,6 +160,8 @@ impl<T> Ring<T> {
     // SAFETY: `head < tail`, so this slot was published by the producer's
     // Release store of `tail` (paired with the Acquire refresh above) and has
     // not been consumed yet.
+    #[cfg(all(loom, excsn_fibre_verif))]
+    crate::internal::verif_shadow::write(self.buf[head & self.mask].get() as usize); // verification seam H10
     let item = unsafe { (*self.buf[head & self.mask].get()).assume_init_read() };
     self.c.head.store(head.wrapping_add(1), Ordering::Release);
     Some(item)
